@@ -220,8 +220,8 @@ func (s *solo) bindResultHandle(h *rpcbench.Handle, ac *appCall) {
 			}
 		}
 	}
-	if ce := spec.cexps[h.CapIdx]; ce != nil {
-		h.Local = ce.local
+	if h.CapIdx < len(spec.clocals) && spec.clocals[h.CapIdx] != nil {
+		h.Local = spec.clocals[h.CapIdx]
 	}
 }
 
@@ -251,8 +251,8 @@ func (s *solo) bindArgHandles() {
 				s.handlePexp[h.ID] = e
 			}
 		case "receiverHosted":
-			if ce := s.cexp[d.ID]; ce != nil && hp != nil {
-				hp.Local = ce.local
+			if hp != nil && h.CapIdx < len(q.argLocals) {
+				hp.Local = q.argLocals[h.CapIdx]
 			}
 		}
 		if hp != nil {
